@@ -63,12 +63,12 @@ def run(fn, H, psi, dt, n, two):
 CASES = []
 for _name, (_mk, _qd) in MODELS.items():
     _d = len(_qd)
-    for _L in range(1, 6):
-        if _d ** _L > 1024 or (_d ** _L > 243 and _name != 'xxz'):
+    for _L in range(1, 8):
+        if _d ** _L > 243 and not (_d == 2 and _L <= 7):
             continue
         for _q in sector_list(_qd, _L):
             CASES.append((_name, _L, _q))
-QUICK_CASES = [c for c in CASES if c[1] <= 4]
+QUICK_CASES = [c for c in CASES if c[1] <= 4 or (c[1] == 6 and c[0] in ('xxz', 'nn2q'))]      # L = 6, d = 2: first size whose central bonds mix left- and right-enumerated sectors
 
 
 def make_exact(cases):
@@ -137,6 +137,54 @@ def make_exact(cases):
             else:
                 ctx.fail('classifier', f'a full-sector state was classified N: {psi.bond_dims}', detail)
     return fn
+
+
+def labelled_manifold_case(ctx, idx, rng):
+    """Complete manifolds in OTHER labellings than the minimal one: every bond enumerated from the left end, from the right end, or minimally
+    (over-complete labellings with sectors that have no support on one side). Whether the projector-splitting algorithm itself is exact there is decided
+    by an independent dense reference implementation of the documented single-site integrator (pvm/tdvp_ref.py: no quantum numbers, no Krylov spaces,
+    rank-revealing splittings): where the reference reproduces exp(-dt n H) psi, the repository must as well; where it does not, the deviation is the
+    splitting error of the algorithm (known finding) and only the third-order bound is demanded."""
+    from .. import tdvp_ref
+    name = str(rng.choice([k for k in MODELS if MODELS[k][1] is not None and any(MODELS[k][1])]))
+    mk, qd = MODELS[name]
+    d = len(qd)
+    L = int(rng.integers(3, 7 if d == 2 else 5))
+    secs = sector_list(qd, L)
+    qtot = int(secs[int(rng.integers(0, len(secs)))])
+    H = mk(L, gen.generic_params(rng))
+    psi, modes = gen.labelled_sector_mps(rng, qd, L, qtot, kind=str(rng.choice(['complex', 'real'])))
+    v0 = refs.dense_state(psi.A)
+    if np.linalg.norm(v0) < 1e-10 or max(psi.bond_dims) > 40:
+        ctx.case(('labelled-manifold', name, 'empty-or-too-large'), nontrivial=False)
+        return
+    v0 = v0 / np.linalg.norm(v0)
+    mH = refs.dense_operator(H.A)
+    nH = max(np.linalg.norm(mH, 2), 1e-300)
+    nsteps = int(rng.integers(1, 3))
+    dtk = ('imag', 'real', 'complex')[idx % 3]
+    mag = float(rng.uniform(0.05, 0.6)) / (nsteps * nH)
+    dt = {'imag': 1j, 'real': 1.0, 'complex': np.exp(1j * float(rng.uniform(0.2, 2.9)))}[dtk] * mag * float(rng.choice([-1, 1]))
+    exact = expm(-dt * nsteps * mH) @ v0
+    _, Ar = tdvp_ref.singlesite(H.A, psi.A, dt, nsteps)
+    e_ref = float(np.linalg.norm(refs.dense_state(Ar) - exact) / np.linalg.norm(exact))
+    ref_exact = e_ref <= 1e-10
+    ctx.case(('labelled-manifold', name, f'L{L}', '-'.join(m[0] for m in modes), 'algorithm-exact' if ref_exact else 'algorithm-inexact', dtk),
+             sample={'model': name, 'L': L, 'sector': qtot, 'bond_labelling': modes, 'bond_dims': psi.bond_dims, 'dt': dt, 'steps': nsteps, 'reference_error': e_ref},
+             info={'model': name, 'L': L, 'sector': qtot, 'qD': psi.qD, 'A': psi.A, 'H_A': H.A, 'H_qD': H.qD, 'dt': dt, 'steps': nsteps, 'bond_labelling': modes})
+    detail = ctx.cur_info
+    p, r = run(ptn.integrate_local_singlesite, H, psi, dt, nsteps, False)
+    e1 = float(np.linalg.norm(refs.dense_state(p.A) - exact) / np.linalg.norm(exact))
+    if ref_exact:
+        ctx.close('exact-on-complete-manifold[singlesite,other-labellings]', e1, 1e-9,
+                  f'complete manifold labelled {modes} (bond dims {psi.bond_dims}): an independent implementation of the algorithm is exact ({e_ref:.1e}), the library is not', detail)
+    else:
+        x = abs(dt) * nH
+        ctx.close('classM.third-order-bound[singlesite,other-labellings]', e1, 1.0 * nsteps * x ** 3 + 1e-9, 'error exceeds the third-order splitting bound', detail)
+        if e1 > 1e-9:
+            ctx.known('C09/class-M-splitting-error',
+                      'on a sector-complete manifold whose bonds are not saturated on one side for all charge blocks (e.g. XXZ L=4, Sz=+-1) '
+                      'TDVP is not exact: it carries the O(dt^3) splitting error inherent to projector splitting', detail)
 
 
 def tuned_dt_case(ctx, idx, rng):
@@ -264,6 +312,7 @@ SPEC = {
         Workload('exactness-all', EX_T, quick=0, thorough=len(CASES) * 40, exhaustive={'space': 'all total-charge sectors of every (model, L) within dense reach, 6 repetitions with rotating dt kinds'}),
         Workload('reversibility', reversibility, quick=450, thorough=40000),
         Workload('tuned-dt', tuned_dt_case, quick=150, thorough=12000),
+        Workload('labelled-manifolds', labelled_manifold_case, quick=200, thorough=16000),
     ],
     'shards': {'quick': 4, 'thorough': 16},
     'watchdog_s': {'quick': 900, 'thorough': 7200},
